@@ -266,6 +266,9 @@ main(void)
         VASSERT(rd.state == ChannelState_Mapped, "reader with a slice not Mapped");
         VASSERT(inv_mapped_reader(&ch, &rd), "INV(mapped reader) not established");
         VASSERT(mapped_len(&ch, &rd) == len, "reader bookkeeping disagrees with the returned slice");
+#ifdef ALIGNED
+        VASSERT((rd.pos & 7) == 0 && (len & 7) == 0, "C05: mapped run does not end on an 8-byte boundary");
+#endif
         VASSERT(len == before.a.e - before.a.b, "slice is not the whole contiguous unread run");
     }
     /* C03: when a read_map moves the hold without mapping anything it may have released space */
